@@ -85,6 +85,11 @@ CHECKS["C14"] = dict(engine="svc", technique="property-based testing of the real
    note="Scripted handler hook; table filled via add_enr; selection among surplus eligible entries is unspecified, so a count range is asserted.",
    ref="7.4 / C14")
 
+CHECKS["C20"] = dict(engine="svc", technique="stateful property-based testing of the TALK request life cycle (respond / drop / hold / other thread / full or absent event stream / shutdown) with a per-request ledger",
+   text="Exploration: generated scripts of concurrent TALKREQs and application reactions in all orders against the real service behind a scripted handler; after every step each request has exactly the expected TALKRESP (payload or empty) or none while held; after shutdown respond returns ChannelClosed and drop does not panic.",
+   note="Request ids unique per source within a script.",
+   ref="7.4 / C20")
+
 NOT_YET = {}
 
 def main():
